@@ -89,7 +89,12 @@ def run(chk, tier, replay):
     e2, m2, _, _ = wcommon.run_histories(chk, mp, mcfgs, modes=("f", "m", "b2"), with_file=False, label="p")
     execs += e2
     meta.update(m2)
-    hs = hs + mp
+    lg = [h for h in wcommon.long_histories(chk, tier) if len(h) > 2]
+    lcfgs = [(0, 1 << 20), (1, 1024), (6, 4096), (2, 64), (5, 300)]
+    e3, m3, _, _ = wcommon.run_histories(chk, lg, lcfgs, modes=("f", "m7"), with_file=False, label="l")
+    execs += e3
+    meta.update(m3)
+    hs = hs + mp + lg
     for cid, (ops, codec, page) in meta.items():
         chk.count((ops, codec, page), wcommon.nontrivial_history(ops))
     for i in range(0, len(hs), max(1, len(hs) // 4)):
@@ -99,7 +104,7 @@ def run(chk, tier, replay):
         chk.add_tlc(r)
     chk.cov["traces_validated_against_impl"] += stats["execs"]
     chk.part("trace", events=stats["events"], executions=stats["execs"], failed_calls=stats["failed"],
-             histories=len(hs), many_page_histories=len(mp),
+             histories=len(hs), many_page_histories=len(mp), long_histories=len(lg),
              configs=[(wcommon.CODECS[c], p) for c, p in cfgs], many_page_configs=[(wcommon.CODECS[c], p) for c, p in mcfgs])
     report(chk, verdicts, meta, lambda w: not w.startswith("file:"))
     chk.cov["rule"] = ("histories = reachable Close states of MC_WriterGen (schema catalogue x null patterns x all batch splits x "
